@@ -46,6 +46,9 @@ type c39State struct {
 	inbound     *nsPacket
 	histBefore  int
 	entries     map[string]string // relay entry identity -> "type/peer/state" at the previous observation
+	// answered[i]: host i is harness-controlled and has itself sent CreateRelayResponse messages over
+	// its own tunnel; whatever the relay then forwards to it was negotiated by it
+	answered map[int]bool
 }
 
 func (c *c39State) observeAgreed(w *nsWorld) {
@@ -142,9 +145,18 @@ func (c *c39State) postDeliver(rt *rapid.T, w *nsWorld, h *nsHist, p *nsPacket, 
 		if yi == c.relayIdx {
 			rt.Fatalf("relay %s forwarded %v to itself", r.name, q)
 		}
-		ok = false
+		// A relay pair carries traffic in both directions (X asked for Y and Y answered, or Y asked for X
+		// and X answered): the answering side is an honest node whose terminal relay state is visible,
+		// or a harness-controlled host that forged CreateRelayResponse messages over its own tunnel
+		// (then it has agreed to whatever the relay derived from them).
+		ok = c.answered[yi] || c.answered[xi]
 		for _, a := range w.specs[xi].nets {
 			if c.agreed[yi][a.Addr()] {
+				ok = true
+			}
+		}
+		for _, a := range w.specs[yi].nets {
+			if c.agreed[xi][a.Addr()] {
 				ok = true
 			}
 		}
@@ -316,6 +328,12 @@ func (c *c39State) hostileControl(rt *rapid.T, w *nsWorld, h *nsHist) {
 	}
 	m.ctrl.f.SendMessageToHostInfo(header.Control, 0, hi, b, make([]byte, 12), make([]byte, mtu))
 	w.s.settle()
+	if msg.Type == NebulaControl_CreateRelayResponse {
+		if c.answered == nil {
+			c.answered = map[int]bool{}
+		}
+		c.answered[mi] = true
+	}
 	c.hostileCtl++
 	h.note("hostile control from %s to %s: type=%d from=%v/%d to=%v/%d init=%d resp=%d", m.name, target.name, msg.Type, msg.RelayFromAddr, msg.OldRelayFromAddr, msg.RelayToAddr, msg.OldRelayToAddr, msg.InitiatorRelayIndex, msg.ResponderRelayIndex)
 }
